@@ -299,6 +299,11 @@ LIB = {
 
 
 def evaluate(rep, repo, cmod):
+    from kvstatic.core import cached_rules
+    return cached_rules(rep, repo, 'c10.function', ['circuit', 'techlib'], lambda r: _evaluate(r, repo, cmod))
+
+
+def _evaluate(rep, repo, cmod):
     env = G.classes(cmod)
     rep.rule('C10.function', 'substitute / resolve_tlib_cells / eliminate_1to1_forks evaluated on small circuits (8 library cells incl. unread inputs, outputs read internally, '
                              'two-output and state-holding cells, a constant; every pattern of connected pins; plain, branch-fork and fan-out hosts; two instances; and every distinct implementation '
